@@ -162,6 +162,15 @@ func NewTickDriver(mode string) *TickDriver {
 		// and past the four bytes the per-epoch lists are keyed with
 		add(tickOp{kind: "newEpoch", plus32: true, signer: "A"})
 		add(tickOp{kind: "newEpoch", de: 1, signer: "S"}, tickOp{kind: "newEpoch", de: 1, signer: "N"}, tickOp{kind: "nextBlock"})
+	case "C06hist":
+		// the longest history the contract keeps (256 maps), set before the search starts: the clean-up of per-epoch
+		// lists that leave the history then works on epochs 128..255 steps behind, whose encodings need care
+		add(tickOp{kind: "addNode", k: 0, signer: "AN"}, tickOp{kind: "addPeerIR", k: 0, signer: "A"}, tickOp{kind: "addNode", k: 1, signer: "AN"},
+			tickOp{kind: "updStateIR", k: 0, state: 2, signer: "A"}, tickOp{kind: "updStateIR", k: 0, state: 3, signer: "A"})
+		for _, de := range []int{1, 2, 126, 127, 128, 255} {
+			add(tickOp{kind: "newEpoch", de: de, signer: "A"})
+		}
+		add(tickOp{kind: "newEpoch", mul: 256, signer: "A"})
 	case "C06bare":
 		// a 3-key committee (majority account != Alphabet account) and no system subscriber, so
 		// that nothing but Netmap's own check stands between a weaker witness and the tick
@@ -208,6 +217,9 @@ func (d *TickDriver) Build() *World {
 		l := util.Uint160{0xf1, 0xf1}
 		w.Invoke(bal.Hash, []neotest.Signer{w.AlphaS}, "mint", a, int64(10), []byte("d"))
 		w.Invoke(bal.Hash, []neotest.Signer{w.AlphaS}, "lock", []byte("t"), a, l, int64(3), int64(2))
+	}
+	if d.Mode == "C06hist" {
+		w.Invoke(dn.Hash, []neotest.Signer{w.AlphaS}, "updateSnapshotCount", int64(256))
 	}
 	w.Freeze()
 	return w
